@@ -159,7 +159,7 @@ impl Object for Loop {
             }
         } else if name == "cycle" {
             let idx = self.idx.load(Ordering::Relaxed);
-            match args.get(idx % args.len()) {
+            match idx.checked_rem(args.len()).and_then(|idx| args.get(idx)) {
                 Some(arg) => Ok(arg.clone()),
                 None => Ok(Value::UNDEFINED),
             }
